@@ -136,6 +136,22 @@ CLAIMED["C01"] = (
     "DESIGN.md §5 C01",
 )
 
+CLAIMED["C16"] = (
+    "Kernel-checked lemmas over the loader model, each for ARBITRARY packages so that combinations follow by "
+    "composition: a relationship survives loading iff it is external or resolves to a loaded part (dangling targets are "
+    "dropped, nothing else); content-type lookup depends only on lower-cased keys on both sides; unreferenced extra "
+    "members do not change the result; a part without rels item has no relationships; the loader's only failures are the "
+    "two KeyError classes, each characterised.  Tied to the code by fault injection on every corpus deck (dangling targets, "
+    "deleted rels items, case flips, unknown content types, extra members, permuted slide part names, removed core "
+    "properties, directory form; singly and in pairs): Presentation() must succeed and the saved package is compared with "
+    "the model's listing and judged by the OPC oracle against the faulted input; truncated/non-zip/incomplete inputs must "
+    "raise exactly the documented exception class.",
+    "Trusted: fault injectors; zipfile's behaviour on truncation (only the class is predicted); ValueError for a "
+    "non-presentation main part is checked dynamically only (api._is_pptx_package is not in the Lean model).",
+    "Lean 4 proof (loader lemmas) + fault-injection correspondence + exception-class oracle",
+    "DESIGN.md §5 C16",
+)
+
 NOT_YET = {}
 
 
